@@ -1511,7 +1511,9 @@ def c19(run):
     order = list(good); rng.shuffle(order)
     junk = ["pivot 3 1 2 2 0 1 1 1 1 0 0", "compose D 3 2 3 1 1 1 0 1 1 2 3 1 1 1 0 1 1 0 0 1 0 0 1", "parse dense c 3120312061",
             "@clk=2 tu 6668 4 4 1 1 0 0 0 1 1 0 0 0 1 1 1 0 0 1", "equimod e 0 2 2 2147483647 2147483647 2147483647 1",
-            "@clk=1 ctu 6668 3 3 1 1 0 0 1 1 1 0 1", "balanced 2 1 0 1 2 2 1 1 1 1"]
+            "@clk=1 ctu 6668 3 3 1 1 0 0 1 1 1 0 1", "balanced 2 1 0 1 2 2 1 1 1 1",
+            "@clk=2 regular 6664 4 4 1 1 0 0 0 1 1 0 0 0 1 1 1 0 0 1", "@clk=3 regular 6664 5 5 1 1 0 0 1 1 1 1 0 0 0 1 1 1 0 0 0 1 1 1 1 0 0 1 1",
+            "@clk=4 tu 6668 5 5 1 1 0 0 1 1 1 1 0 0 0 1 1 1 0 0 0 1 1 1 1 0 0 1 1"]
     b = []
     for o in order:
         if rng.random() < 0.5:
